@@ -217,6 +217,28 @@ def _max_opt(a, b):
     return a if b <= a else b
 
 
+def _tup_append(acc, x):
+    acc[0].append(x)       # mutates the list INSIDE the (immutable) tuple
+    return acc
+
+
+def _tup_extend(a, b):
+    a[0].extend(b[0])
+    return a
+
+
+def _nest_append(acc, x):
+    acc[0].append(x)
+    acc[1] += 1
+    return acc
+
+
+def _nest_extend(a, b):
+    a[0].extend(b[0])
+    a[1] += b[1]
+    return a
+
+
 BIN = {
     'add': lambda a, b: a + b,
     'mul': lambda a, b: a * b,
@@ -231,6 +253,10 @@ BIN = {
     'sumCountSeq': lambda a, x: (a[0] + x, a[1] + 1),
     'sumCountComb': lambda a, b: (a[0] + b[0], a[1] + b[1]),
     'maxOpt': _max_opt,
+    'tupAppend': _tup_append,
+    'tupExtend': _tup_extend,
+    'nestAppend': _nest_append,
+    'nestExtend': _nest_extend,
 }
 
 AGG = {  # name -> (zero factory, seq, comb, applies(kind))
@@ -238,13 +264,15 @@ AGG = {  # name -> (zero factory, seq, comb, applies(kind))
     'appendExtend': (lambda: [], 'append', 'extend'),
     'addAdd': (lambda: 0, 'add', 'add'),
     'maxOpt': (lambda: None, 'maxOpt', 'maxOpt'),
+    'tupMut': (lambda: ([],), 'tupAppend', 'tupExtend'),
+    'nestMut': (lambda: [[], 0], 'nestAppend', 'nestExtend'),
 }
 
 
 def agg_applies(name, k):
     if name in ('sumCount', 'addAdd'):
         return k == 'I'
-    if name == 'appendExtend':
+    if name in ('appendExtend', 'tupMut', 'nestMut'):
         return True
     if name == 'maxOpt':
         return k in ('I', 'N', 'S', 'T')
